@@ -94,8 +94,11 @@ static void release_hook(void *mutex, int kind, void *cond) {
     for (level = 1; level < LDB_NUM_LEVELS && !reported; level++)
       for (i = 1; i < v->files[level].length; i++) {
         const ldb_filemeta_t *a = v->files[level].items[i - 1], *b = v->files[level].items[i];
-        ldb_slice_t al = ldb_ikey_user_key(&a->largest), bs = ldb_ikey_user_key(&b->smallest);
-        if (ldb_compare(uc, &al, &bs) >= 0) {
+        /* internal-key order: two neighbours may share a user key at the boundary (versions of one key kept apart by live
+           snapshots and cut over two output files -- what add_boundary_inputs exists for); what may not happen is that the
+           largest internal key of one file is not below the smallest of the next */
+        (void)uc;
+        if (ldb_compare(&g_db->versions->icmp, &a->largest, &b->smallest) >= 0) {
           printf("OVERLAP level=%d files=%llu,%llu @%ld\n", level, (unsigned long long)a->number, (unsigned long long)b->number, sched_now());
           reported = 1; break;
         }
